@@ -12,6 +12,8 @@ def run(ctx):
         ic.rule_loop_state(ctx, cfg, r2)
         r3 = ctx.rule("R07.3" + sfx, "HasMoreOutput overrides NeedsMoreInput when the output window is full", floor=1, config=cfg)
         ic.rule_override(ctx, cfg, r3)
+        r4 = ctx.rule("R07.4" + sfx, "clean suspension: a state that returns needs-more-input / has-more-output has modified nothing but the bit buffer and input position", floor=40, config=cfg)
+        ic.rule_clean_suspension(ctx, cfg, r4)
         r5 = ctx.rule("R07.5" + sfx, "multi-byte fields (zlib trailer, stored-block header) are collected through a persisted counter, one byte per step", floor=6, config=cfg)
         ic.rule_counted_bytes(ctx, cfg, r5)
         ic.rule_counted_bytes(ctx, cfg, r5, arm="RawHeader", limit=4, acc_field=None)
